@@ -252,6 +252,11 @@ def run_layers(run):
     run.stubs += ["scipy.sparse.csc_matrix in SparseJacobian._initialize_jacobian_matrix -> dense object matrix of the same shape (scipy rejects object data)"]
     quick = run.tier == "quick"
     for nm in C06.models():
+        if getattr(nm, "loglinear", False):
+            # added to C06 for its own obligation (first-order match in logs): its Jacobian entries are products of EXP(.) with
+            # float-born constants that differ by rounding between eval_jacob and the structural derivative, which an exact symbolic comparison
+            # cannot absorb (numeric entries have a 1e-9 tolerance, symbolic ones none); rbc covers log-variables and real powers in this layer
+            continue
         if quick and nm.name in ("lin_backward",):
             continue
         try:
